@@ -49,6 +49,14 @@ func newPurity() *purity { return &purity{memo: map[purKey]*purResult{}} }
 var pureInvokeRecv = map[string]bool{"Sum": true, "Size": true, "BlockSize": true, "MarshalBinary": true, "AppendBinary": true, "Clone": true, "Error": true, "String": true}
 var pureInvokeArg = map[string]bool{"Write": true, "Sum": false}
 
+// standard-library callees trusted not to change the observable state of
+// their receiver, one line of reason each (the analysis would otherwise see an
+// idempotent lazy initialisation as a write).
+var pureByContract = map[string]string{
+	"(*crypto/sha3.SHAKE).MarshalBinary": "encoding.BinaryMarshaler; the only store is the lazy zero-value initialisation in (*SHAKE).init, which is idempotent and a no-op for values built by the constructors",
+	"(*crypto/sha3.SHAKE).AppendBinary":  "as MarshalBinary",
+}
+
 func hasRefs(t types.Type, depth int) bool {
 	if depth > 6 {
 		return true
@@ -284,9 +292,9 @@ func (p *purity) analyse(fn *ssa.Function, idx int, depth int) (string, ssa.Inst
 						bad(x, "shared memory passed to a dynamic call")
 					}
 				}
-				if D[cc.Value] {
-					bad(x, "dynamic call of a shared function value")
-				}
+				// calling a function value stored in the shared object, without
+				// handing it shared memory, is not a write through the parameter
+				// (the closure's own captures were fixed when it was built)
 				return
 			}
 			if _, isGo := in.(*ssa.Go); isGo {
@@ -295,6 +303,9 @@ func (p *purity) analyse(fn *ssa.Function, idx int, depth int) (string, ssa.Inst
 						bad(x, "shared memory passed to a goroutine")
 					}
 				}
+				return
+			}
+			if _, trusted := pureByContract[short(callee.String())]; trusted {
 				return
 			}
 			for i, a := range cc.Args {
